@@ -321,3 +321,84 @@ class SampleMse(E2Contract):
 
     def canary(self, W, cfg, inp, out):
         return [eq("canary", out["mse"], 2 * out["mse"] + 1, "(false)")]
+
+
+class _FakeResult:
+    """the two members convert_to_series reads from an estimation result"""
+
+    def __init__(self, seq, times):
+        self.estimated_qoperation_sequence = seq
+        self.computation_times = times
+
+
+class SampleSeries(E2Contract):
+    """data_analysis.convert_to_series: per data size, the mean squared distance to the true object over ALL repetitions (and its sample standard
+    deviation, and the computation times of every repetition); plus the general-norm MSE and the covariance helpers of the same module"""
+    name = "data_analysis.convert_to_series / helpers"
+    prop = "C19"
+    targets = ("quara.data_analysis.data_analysis:convert_to_series", "quara.data_analysis.data_analysis:calc_mse_qoperations",
+               "quara.data_analysis.data_analysis:calc_mse_general_norm", "quara.data_analysis.data_analysis:calc_covariance_matrix_of_prob_dist",
+               "quara.data_analysis.data_analysis:calc_covariance_matrix_of_prob_dists")
+    frame = True
+    max_paths = 8
+    n_conformance = 1
+
+    def configs(self, tier):
+        # (repetitions, data sizes): more repetitions than data sizes, fewer, equal
+        return [(3, 2), (2, 3), (2, 2)] + ([(4, 1), (3, 3)] if tier == "thorough" else [])
+
+    def inputs(self, W, cfg, mk):
+        reps, sizes = cfg
+        c_sys = make_csys(W, "1q")
+        tmpl = empty_obj(W, "state", c_sys, 0, True)
+        ests = [[tmpl.generate_from_var(mk.array(f"x{r}_{d}_", 3)) for d in range(sizes)] for r in range(reps)]
+        times = [[mk.real(f"t{r}_{d}") for d in range(sizes)] for r in range(reps)]
+        p = [mk.array("p0_", 2), mk.array("p1_", 3)]
+        n = mk.real("n")
+        mk.require(n >= 1)
+        return dict(ests=ests, times=times, true=tmpl.generate_from_var(mk.array("y", 3)), p=p, n=n,
+                    xs=[mk.array(f"v{k}_", 3) for k in range(3)], yv=mk.array("yv", 3))
+
+    def run(self, W, cfg, inp):
+        da = W.mod("quara.data_analysis.data_analysis")
+        results = [_FakeResult(list(s), list(t)) for s, t in zip(inp["ests"], inp["times"])]
+        mses, stds, comp = da.convert_to_series(results, inp["true"])
+        np = W.np
+        norm = lambda a, b: np.sqrt(np.dot(a - b, a - b))
+        return dict(mses=list(mses), stds=list(stds), comp=[list(c) for c in comp],
+                    general=da.calc_mse_general_norm(inp["xs"], inp["yv"], norm),
+                    cov=da.calc_covariance_matrix_of_prob_dist(inp["p"][0], inp["n"]),
+                    covs=da.calc_covariance_matrix_of_prob_dists(inp["p"], inp["n"]))
+
+    def post(self, W, cfg, inp, out):
+        reps, sizes = cfg
+        np = W.np
+        yv = np.asarray(stacked(W, inp["true"])[0]).reshape(-1)
+        mean, var = [], []
+        for d in range(sizes):
+            pts = []
+            for r in range(reps):
+                dlt = np.asarray(stacked(W, inp["ests"][r][d])[0]).reshape(-1) - yv
+                pts.append(np.dot(dlt, dlt))
+            mu = sum(pts[1:], pts[0]) / reps
+            mean.append(mu)
+            var.append(sum(((x - mu) ** 2 for x in pts[1:]), (pts[0] - mu) ** 2) / (reps - 1))
+        cl = [eq("series-length", len(out["mses"]), sizes, "one entry per data size"),
+              eq("mse[d]==mean-over-all-repetitions", out["mses"], mean, "mses[d] == (1/R) sum_r |estimate_{r,d} - true|^2 over ALL R repetitions"),
+              eq("std[d]^2==unbiased-sample-variance", [s * s for s in out["stds"]], var, "stds[d]^2 == sample variance (ddof 1) over all repetitions"),
+              eq("computation-times-transposed", out["comp"], [[inp["times"][r][d] for r in range(reps)] for d in range(sizes)],
+                 "comp_time[d][r] == computation time of repetition r at data size d")]
+        g = sum((np.dot(x - inp["yv"], x - inp["yv"]) for x in inp["xs"][1:]), np.dot(inp["xs"][0] - inp["yv"], inp["xs"][0] - inp["yv"])) / 3
+        cl.append(eq("general-norm-mse", out["general"], g, "calc_mse_general_norm == (1/len) sum_i norm(x_i, y)^2"))
+        p0, p1 = inp["p"]
+        c0 = (np.diag(p0) - np.outer(p0, p0)) / inp["n"]
+        c1 = (np.diag(p1) - np.outer(p1, p1)) / inp["n"]
+        tot = np.zeros((5, 5))
+        tot[:2, :2] = c0
+        tot[2:, 2:] = c1
+        cl += [eq("covariance-of-one-distribution", out["cov"], c0, "(diag(p) - p p^T) / N"),
+               eq("covariance-of-distributions==direct-sum", out["covs"], tot, "direct sum of the per-distribution covariance matrices")]
+        return cl
+
+    def canary(self, W, cfg, inp, out):
+        return [eq("canary", out["mses"][0], 2 * out["mses"][0] + 1, "(false)")]
